@@ -36,6 +36,37 @@ CHECKS = {
          "All 2^32 f32 bit patterns are converted to u8, u16, u32, u64 and u128 (and, widened, through the f64 source), each result compared with the set of integers within 1/2 + one rounding of x*MAX computed in exact 128/256-bit integer arithmetic; monotonicity on every successor pair, saturation for every x<=0, -inf, x>=1, +inf and NaN. Integer sources: every u8 and u16, every u32 (thorough; quick: every 5th + complete windows + lattice) and lattices for u64/u128, to all seven formats: monotone, ends exact, proportional, widen->narrow and int->float->int identities. f64 sources on a lattice built from every rounding tie, every power of two and the magnitudes where the magic-number trick stops being valid. The into_format wrappers of Rgb/Rgba/Luma/Lumaa/Alpha/Hsv/Hsl/Hwb are bitwise compared with the component function.",
          "f64 sources that are not f32-representable are covered only on the lattice; the oracle's W (float type in which the product is rounded) is f32 for f32->u8/u16 and f64 otherwise, as the statement's '53 significant bits' clause implies.",
          "§4 C06"),
+
+ "C08": ("model_checking",
+         "exhaustive enumeration of the component lattice product (cs, cb, alpha_s, alpha_b) in L^4 (|L| = 13 / 17, containing every knee of the blend functions and its ulp neighbours) x 11 blend modes x 6 Porter-Duff operators x 3 input forms x 10 colour types x f32/f64 on the real Blend/Compose code, against a W3C Compositing and Blending Level 1 reference model in f64",
+         "Every tuple of the lattice (13^4 = 28 561 per mode and form; only c <= alpha for premultiplied input) goes through every separable blend mode and Porter-Duff operator in the opaque, Alpha and PreAlpha forms and is compared with the W3C formulas (premultiplied result, alpha_o, range [0,1]); all ordered colour pairs of a K^3 x alphas lattice check slot independence; identities (transparent-over, opaque-over, symmetry of the commutative operations) bit-exact where exact arithmetic makes them exact; premultiply/unpremultiply round trip down to MIN_POSITIVE alpha; BlendWith with 645 Equations configurations and the Porter-Duff presets against their documented definitions.",
+         "Which argument is source/backdrop and which output form each input form gives were read from the source and doc examples; tolerance 64*2^-24 (f32) / 1e-12 (f64) in premultiplied terms; dodge/burn on PreAlpha use a +-4 eps backward-error hull; SIMD component types are not covered. One genuine finding recorded (plus leaves [0,1]).",
+         "§4 C08"),
+ "C11": ("model_checking",
+         "exhaustive enumeration of the complete f32 angle space |x| <= 2^20 (2 466 250 754 bit patterns, both signs, walked as a successor chain) and of integer-angle x whole-turn products, all 256 8-bit hues and cartesian grids, on the real hue types, against an exact-arithmetic (TwoSum / i128) reference",
+         "Every f32 with |x| <= 2^20 goes through both normal forms, the raw accessors, the 8-bit code and equality with itself, with its exact whole-turn shifts and with a partner just beyond rounding distance, for RgbHue (all five hue types in the thorough tier, strided walks of the other four in quick); 40.2 M (angle, turns) integer pairs per type for ==/!=; f64 lattices (embedded f32 set, 2^k(1 +- ulp), neighbours of multiples of 180); all 256 u8 hues and all 256^2 equality pairs; cartesian round trips on a 1 deg / 0.1 deg grid x 3 radii; Add/Sub on hues against raw-angle arithmetic; wide SIMD lanes. The oracle is exact for every explored input (self-tested against i128 arithmetic at start-up).",
+         "Tolerances are the statement's own (ulp(x) + ulp(360) for the normal forms; inequality only demanded beyond 4 rounding errors); f64 inputs are covered by lattices and the embedded f32 set, not all doubles.",
+         "§4 C11"),
+ "C12": ("model_checking",
+         "exhaustive enumeration of complete spaces (all 2^24 Rgb<u8> colours, all 2^32 packed words x 4 channel orders, all 2^16 luma-alpha words) and of all strings up to 6 (quick) / 8-9 (thorough) symbols over a 12-symbol alphabet for each of the 10 FromStr impls, on the real format/parse/pack/unpack/lookup code, against a reference parser and byte-position predictions",
+         "All 2^24 Rgb<u8> are formatted ({:x}, {:X}) and parsed back with and without '#', through from_hex and the 3-digit form, and through all ten FromStr impls against the reference parser; wider types on lattices plus single-channel walks. All 2^32 packed values x {Rgba, Argb, Bgra, Abgr} and all 2^16 x {La, Al}: unpack->pack identity and each channel at its documented byte, From<u32>/into_u32 conventions. Every line of codegen/res/svg_colors.txt is found under its lower-case name with that value, the iterators list exactly that set, and every capitalisation, single edit (double edits in thorough) and every short a-z string is not found unless listed. All strings over {0,9,a,F,g,+,-,#,space,e-acute,euro,4-byte digit} up to N symbols, all strings <= 3 over 133 symbols and 1-/2-symbol edits of valid strings of every accepted length: accept iff the reference accepts (equal value), never a panic.",
+         "The reference parser encodes the documented grammar: optional single leading '#', then exactly one of the documented digit counts of [0-9a-fA-F]; strings longer than the bound are covered only through edits of valid strings.",
+         "§4 C12"),
+ "C13": ("model_checking",
+         "exhaustive operation-sequence search (all sequences to depth 5 / 6 over the guard alphabet, stateless re-execution from the initial buffer, canonical-state merging cross-checked by an unmerged enumeration) on the real in-place conversion guards, every step compared with a Vec-of-bits reference model; Miri as UB oracle on a smaller bound in the thorough tier",
+         "All 85 buffers of length 0..=3 over a 4-colour set x 5 original types (Srgb<f32>, Hsl, Lab, Srgba, Srgb<f64>) x 5 clique targets each: every sequence of into_color_mut / into_color_unclamped_mut, deref, mutate through DerefMut, then_into_color(_unclamped)_mut, into_(un)clamped_guard, restore, drop and mem::forget up to depth 5 (18.9 M canonical states, 41 M edges; depth 6 thorough: 137 M states) is executed on the real guards; after every step the guard's view, the buffer address/length and, after the guard is gone, the buffer contents are bit-compared with the model (ordinary out-of-place conversion per element). Single values likewise. Vec/Box one-shot forms and map_vec_in_place / map_slice_box_in_place over every (len 0..=4, capacity len..=len+3) shape and chains of up to 3 (4): same pointer, length, capacity and element-wise identical values.",
+         "+-0 and NaN payloads compare equal (f32::max(-0.0, 0.0) has an unspecified zero sign in Hwb::clamp); the model predicts each step from the state observed on the real code; Miri covers a reduced space (14 652 cases).",
+         "§4 C13"),
+ "C18": ("model_checking",
+         "exhaustive operation-sequence search: breadth-first search to closure over all container contents of length <= 5 (quick) / <= 6 (thorough) with an alphabet of ~4 500 operations, on the real struct-of-arrays collections, every step compared with Vec<C>; unmerged enumeration of all sequences to depth 3 as cross-check",
+         "For 26 colour types, each plain and with Alpha (52 macro expansions; 16 configurations with the full search), every reachable content sequence over a 3-colour (4-colour) set is expanded with every push, pop, clear, extend, collect, with_capacity, drain over every range form with bounds 0..=len+1 (empty, full, inverted, out of range, inclusive at usize::MAX) x every consumption script (drop, next x k, next_back x k, alternate, exhaust, forget), get/get_mut by index and range, iter / iter_mut / into_iter over Vec, array, slice, mutable slice and boxed-slice backings with len/size_hint/count observed at every step; the same operation is applied to a Vec<C>: same return values bitwise, same Some/None, panics iff Vec panics, same contents, and all component collections (hue and alpha included) of equal length after every step.",
+         "State = sequence of colours held (capacity is not observable through the property); get_mut is Vec-backed only; mixed Alpha component types are not covered.",
+         "§4 C18"),
+ "C20": ("model_checking",
+         "exhaustive enumeration of (type x value lattice x format x shape x field order) with the serde format as an environment the harness owns: serde_json, ron and a recording/replaying TokenFormat (map form with 5 key encodings, data-delimited seq form, fixed-length bincode-like form), on the real Serialize/Deserialize impls incl. AlphaSerializer/AlphaDeserializer",
+         "About 190 type instantiations (all colour structs, hues, Alpha, PreAlpha; f32/f64/u8) x a 21-point value lattice x 11 format variants round-trip bitwise; the recorded data-model call sequence is compared with the predicted shape (struct name/len = colour's own fields + 1 alpha at the same level, hue as a bare number in the data model, no standard/white_point field); all field orders x {alpha missing, duplicated at every position, unknown scalar or nested field at every position} x 7 map formats for Deserialize and the optional-alpha helpers; missing alpha => error for Alpha, full opacity for the helper; as_array / as_uint against cast::into_array / into_uint; mock colours of every serde shape (struct, tuple struct, newtype, unit, flatten, renamed, own alpha field, nested Alpha) under Alpha; unsupported AlphaDeserializer methods return an error, never a wrong value.",
+         "Documented limitations of AlphaDeserializer (flattening a transparent colour into an outer struct; struct shapes in fixed-length formats) are recorded as notes, not alarms; Cam16 full/partials and Packed have no serde impls in the pinned tree.",
+         "§4 C20"),
 }
 PENDING = {}
 ALL = ["C%02d" % i for i in range(1, 21)]
